@@ -580,6 +580,119 @@ func (s *c15RacingStore) CAS(ctx context.Context, key string, f func(in interfac
 	})
 }
 
+// c15PollStore lets another actor write right after a plain read (kv.Client.Get) returned: the window between the
+// poll of waitPartitionAndRegisterOwner (getRing, outside any CAS) and its registration CAS.
+type c15PollStore struct {
+	kv.Client
+	inject func(v interface{}) bool // reports whether it fired
+	fired  bool
+}
+
+func (s *c15PollStore) Get(ctx context.Context, key string) (interface{}, error) {
+	v, err := s.Client.Get(ctx, key)
+	if err == nil && !s.fired {
+		s.fired = s.inject(v)
+	}
+	return v, err
+}
+
+// c15PollRace: lifecycler A (creation on startup disabled) polls, sees its partition, and before its registration
+// CAS another lifecycler's reconcileOtherPartitions deletes that partition (inactive long enough, no owners) — or,
+// as a control, an unrelated write lands. Emitted as a two-step history: the interfering write, then "G" = the
+// registration CAS of a wait whose poll succeeded earlier.
+func c15PollRace(e *env, r *rng) {
+	logger := log.NewNopLogger()
+	inner, closer := consul.NewInMemoryClient(ring.GetPartitionRingCodec(), logger, nil)
+	defer closer.Close()
+	ctx := context.Background()
+	const key = "pring"
+	base := time.Now().Unix()
+	multi := r.chance(1, 2)
+	target, own := int32(r.intn(2)), int32(2)
+	control := r.chance(1, 3)
+	init := ring.NewPartitionRingDesc()
+	init.Partitions[own] = ring.PartitionDesc{Id: own, State: ring.PartitionActive, StateTimestamp: base - 1000, Tokens: []uint32{2001, 2002}}
+	st := ring.PartitionInactive
+	if r.chance(1, 4) {
+		st = pick(r, []ring.PartitionState{ring.PartitionPending, ring.PartitionActive}) // not deletable
+	}
+	init.Partitions[target] = ring.PartitionDesc{Id: target, State: st, StateTimestamp: base - 1000, Tokens: []uint32{uint32(target)*1000 + 1}}
+	initClone := c15Rebase(init, 0)
+	if err := inner.CAS(ctx, key, func(interface{}) (interface{}, bool, error) { return initClone, true, nil }); err != nil {
+		panic(err)
+	}
+	polling := &c15PollStore{Client: inner}
+	mk := func(pid int32, inst string, store kv.Client) *c15LC {
+		c := &c15LC{pid: pid, instance: inst, multi: multi, waitCount: 1, waitDur: 5, deleteAfter: 5}
+		c.l = ring.NewPartitionInstanceLifecycler(ring.PartitionInstanceLifecyclerConfig{
+			PartitionID: c.pid, InstanceID: c.instance, MultiPartitionOwnership: c.multi,
+			WaitOwnersCountOnPending: c.waitCount, WaitOwnersDurationOnPending: time.Duration(c.waitDur) * time.Second,
+			DeleteInactivePartitionAfterDuration: time.Duration(c.deleteAfter) * time.Second, PollingInterval: 5 * time.Millisecond,
+		}, "verif", key, store, logger, nil)
+		return c
+	}
+	a := mk(target, "ing-a-0", polling) // waits for `target`
+	b := mk(own, "ing-b-0", inner)      // its reconcile deletes inactive owner-less partitions
+	editor := ring.NewPartitionRingEditor(key, inner)
+	get := func() *ring.PartitionRingDesc {
+		v, err := inner.Get(ctx, key)
+		if err != nil {
+			panic(err)
+		}
+		return ring.GetOrCreatePartitionRingDesc(v)
+	}
+	lcStr := func(c *c15LC) string {
+		m := "0"
+		if c.multi {
+			m = "1"
+		}
+		return strings.Join([]string{itoa(int(c.pid)), c.instance, m, itoa(c.waitCount), itoa(c.waitDur), itoa(c.deleteAfter)}, ",")
+	}
+	var ops, obs []string
+	polling.inject = func(v interface{}) bool {
+		if !ring.GetOrCreatePartitionRingDesc(v).HasPartition(target) {
+			return false
+		}
+		t0 := time.Now().Unix()
+		if control {
+			old := get()
+			err := editor.SetPartitionStateChangeLock(ctx, own, true)
+			cur := get()
+			ts := t0 - base
+			if cur.Partitions[own].StateChangeLocked != old.Partitions[own].StateChangeLocked {
+				ts = cur.Partitions[own].StateChangeLockedTimestamp - base
+			}
+			ops = append(ops, fmt.Sprintf("L,%d,1,%d@%d:%d", own, ts, t0-base, time.Now().Unix()-base))
+			obs = append(obs, c15Err(err)+"@"+encPDescOpt(c15Rebase(cur, base), true))
+			return true
+		}
+		before := testutil.ToFloat64(b.l.VerifReconcilesFailedTotal().WithLabelValues("other-partitions"))
+		b.l.VerifReconcileOtherPartitions(ctx, time.Unix(base, 0))
+		res := "ok"
+		if testutil.ToFloat64(b.l.VerifReconcilesFailedTotal().WithLabelValues("other-partitions")) != before {
+			res = "failed"
+		}
+		ops = append(ops, fmt.Sprintf("R,1,0@%d:%d", t0-base, time.Now().Unix()-base))
+		obs = append(obs, res+"@"+encPDescOpt(c15Rebase(get(), base), true))
+		return true
+	}
+	a.l.SetCreatePartitionOnStartup(false)
+	old := get()
+	t0 := time.Now().Unix()
+	err := a.l.VerifWaitPartitionAndRegisterOwner(ctx)
+	if !polling.fired {
+		panic("c15PollRace: the poll was not intercepted")
+	}
+	cur := get()
+	ts := time.Now().Unix() - base
+	if o, ok := cur.Owners[a.ownerID()]; ok && old.Owners[a.ownerID()] != o {
+		ts = o.UpdatedTimestamp - base
+	}
+	ops = append(ops, fmt.Sprintf("G,0,%d@%d:%d", ts, t0-base, time.Now().Unix()-base))
+	obs = append(obs, c15Err(err)+"@"+encPDescOpt(c15Rebase(cur, base), true))
+	e.emit("C15.cas", encPDescOpt(c15Rebase(init, base), true), lcStr(a)+";"+lcStr(b), strings.Join(ops, ";"), strings.Join(obs, "#"))
+}
+
 // c15CasConflict: one reconcile handler of a real lifecycler runs against a racing store; the conflicting write
 // is chosen to invalidate (or, as a control, not to invalidate) the decision the handler took on its first run.
 // Emitted as a two-step history (conflicting write, then the handler) with the ring after each.
@@ -1120,5 +1233,9 @@ func runC15(e *env) {
 	r = newRng(e.seed, 1504)
 	for i := 0; i < 300*e.scale; i++ {
 		c15CasConflict(e, r)
+	}
+	r = newRng(e.seed, 1505)
+	for i := 0; i < 100*e.scale; i++ {
+		c15PollRace(e, r)
 	}
 }
